@@ -18,6 +18,7 @@ Section ApiP.
   Variable add : V -> V -> V.
   Variable vzero : V.
   Variable f : list V -> V.
+  Variable scal : nat -> bool.
   Variable srt : list Z -> list nat.
   Hypothesis veqb_eq : forall a b, veqb a b = true <-> a = b.
   Hypothesis srt_ok : is_argsort srt.
@@ -25,12 +26,11 @@ Section ApiP.
   Definition is_rdense (x : repr V) : bool := match x with RDense _ _ => true | _ => false end.
 
   (* a sparse operand: ANY representation reachable by conversions from a canonical COO array c0
-     (C05's chain invariant), except a 0-d DOK (finding zero_dim_from_iter) *)
+     (C05's chain invariant; since round 7 a 0-d DOK holding its element converts like every other array) *)
   Definition arg_ok (a : api_arg V) : Prop :=
     match a with
     | AArr x => is_rdense x = false /\
-                exists c0, canonical V c0 /\ shape_ok (c_shape c0) /\ inv V veqb c0 x /\
-                           (c_shape c0 <> [] \/ is_rdok V x = false)
+                exists c0, canonical V c0 /\ shape_ok (c_shape c0) /\ inv V veqb c0 x
     | ADn d => shape_ok (d_shape d)
     end.
 
@@ -43,8 +43,8 @@ Section ApiP.
                             operand_at V vzero op q = api_val V vzero a q.
   Proof.
     destruct a as [x|d]; simpl.
-    - intros [_ [c0 [Hc0 [Hok0 [Hinv Hd]]]]].
-      destruct (to_coo_inv V veqb add veqb_eq c0 x Hok0 Hinv Hd) as [c' [E [Hc' [Hsh [Hf [_ Hden]]]]]].
+    - intros [_ [c0 [Hc0 [Hok0 Hinv]]]].
+      destruct (to_coo_inv V veqb add veqb_eq c0 x Hok0 Hinv) as [c' [E [Hc' [Hsh [Hf [_ Hden]]]]]].
       destruct (inv_facts V veqb add c0 x Hok0 Hinv) as [_ [Sx [_ Dx]]].
       rewrite E. cbn [bind]. eexists. split; [reflexivity|]. split; [split; [exact Hc'|rewrite Hsh; exact Hok0]|].
       split; [simpl; congruence|]. split; [reflexivity|].
@@ -81,14 +81,12 @@ Section ApiP.
 
   Definition api_F (args : list (api_arg V)) (q : idx) : V := f (map (fun a => api_val V vzero a q) args).
 
-  (* domain clauses of the final conversion (both are properties of asformat, C05): the hop is one
-     asformat accepts for the result's shape, and a 0-d result is not converted to DOK (finding
-     zero_dim_from_iter) *)
+  (* domain clause of the final conversion (a property of asformat, C05): the hop is one asformat accepts
+     for the result's shape (valid compressed axes) *)
   Definition api_hop_ok (args : list (api_arg V)) : Prop :=
-    forall ops r o, mapM (to_operand V veqb add) args = Ok ops -> elemwise V veqb vzero f srt ops = OutSparse r ->
+    forall ops r o, mapM (to_operand V veqb add) args = Ok ops -> elemwise_sc V veqb vzero f scal srt ops = OutSparse r ->
       out_format (map (arg_afmt V) args) = Some o ->
-      hop_okb (c_shape r) (hop_of (result_format o (c_shape r))) = true /\
-      dok0d_clause (c_shape r) [hop_of (result_format o (c_shape r))] = true.
+      hop_okb (c_shape r) (hop_of (result_format o (c_shape r))) = true.
 
   Definition api_post (args : list (api_arg V)) (out : res (repr V + dense V)) : Prop :=
     match out with
@@ -100,34 +98,34 @@ Section ApiP.
     | Raise e =>
       e = ValueError /\
       (out_format (map (arg_afmt V) args) = None \/
-       exists ops, mapM (to_operand V veqb add) args = Ok ops /\ elemwise V veqb vzero f srt ops = OutErr e)
+       exists ops, mapM (to_operand V veqb add) args = Ok ops /\ elemwise_sc V veqb vzero f scal srt ops = OutErr e)
     end.
 
   Theorem elemwise_api_den_proof (args : list (api_arg V)) :
-    Forall arg_ok args -> api_hop_ok args -> api_post args (elemwise_api V veqb add vzero f srt args).
+    Forall arg_ok args -> api_hop_ok args -> api_post args (elemwise_api V veqb add vzero f scal srt args).
   Proof.
     intros Hok Hhop. unfold elemwise_api.
     destruct (out_format (map (arg_afmt V) args)) as [o|] eqn:Eo; [|split; [reflexivity|left; exact Eo]].
     assert (Hsp : existsb is_arr args = true) by (apply out_format_some; [rewrite Eo; discriminate|exact Hok]).
     destruct (to_operands_ok args Hok) as [ops [Em [P1 [P2 [P3 P4]]]]]. rewrite Em. cbn [bind].
     assert (Hsp' : existsb (is_sparse V) ops = true) by congruence.
-    pose proof (elemwise_den_proof V veqb vzero srt srt_ok f veqb_eq ops P1 Hsp') as Hpost.
+    pose proof (elemwise_sc_den_proof V veqb vzero scal srt srt_ok f veqb_eq ops P1 Hsp') as Hpost.
     unfold elemwise_post in Hpost. rewrite P2 in Hpost.
     assert (HF : forall sh q, np_broadcast_rel (map (api_shape V) args) sh -> in_range sh q ->
                               F V vzero f ops q = api_F args q).
     { intros sh q Hrel Hq. unfold F, api_F. f_equal. apply (P4 sh q); [|exact Hq].
       intros a Ha. apply (rel_BT _ _ _ Hrel). apply in_map. exact Ha. }
-    destruct (elemwise V veqb vzero f srt ops) as [r|d|e] eqn:Ee.
+    destruct (elemwise_sc V veqb vzero f scal srt ops) as [r|d|e] eqn:Ee.
     - destruct Hpost as [sh [nd [R1 [_ [_ [Q1 [_ [Q3 [_ Q5]]]]]]]]].
-      destruct (Hhop ops r o Em Ee Eo) as [Hh Hdk].
+      pose proof (Hhop ops r o Em Ee Eo) as Hh.
       set (hop := hop_of (result_format o (c_shape r))) in *.
       assert (Hshok : shape_ok (c_shape r)).
       { rewrite Q1. eapply rel_shape_ok; [|exact R1]. apply Forall_forall. intros s Hs.
         apply in_map_iff in Hs. destruct Hs as [a [<- Ha]]. rewrite Forall_forall in Hok. specialize (Hok a Ha).
-        destruct a as [x|d]; simpl in *; [|exact Hok]. destruct Hok as [_ [c0 [_ [Hk [Hinv _]]]]].
+        destruct a as [x|d]; simpl in *; [|exact Hok]. destruct Hok as [_ [c0 [_ [Hk Hinv]]]].
         destruct (inv_facts V veqb add c0 x Hk Hinv) as [_ [Sx _]]. rewrite Sx. exact Hk. }
-      destruct (conversion_chain_den_partial_proof V veqb add veqb_eq r [hop] Q3 Hshok) as [x [Ex [W [Sx [_ Dx]]]]].
-      { simpl. rewrite Hh. reflexivity. } { exact Hdk. }
+      destruct (conversion_chain_den_proof V veqb add veqb_eq r [hop] Q3 Hshok) as [x [Ex [W [Sx [_ Dx]]]]].
+      { simpl. rewrite Hh. reflexivity. }
       unfold run_chain in Ex. simpl in Ex. rewrite Ex. cbn [bind].
       exists sh. split; [exact R1|]. split; [congruence|]. split; [exact W|].
       intros q Hq. rewrite Dx by (rewrite Q1; exact Hq). rewrite Q5 by exact Hq. apply (HF sh q R1 Hq).
@@ -322,14 +320,14 @@ Definition exa_args : list (api_arg Z) := [AArr exa_g; ADn (mkDense [] [2])].
 
 Example elemwise_api_nonvacuous :
   Forall (arg_ok Z Z.eqb) exa_args /\
-  (exists x, elemwise_api Z Z.eqb Z.add 0 ex_mul argsort exa_args = Ok (inl x) /\
+  (exists x, elemwise_api Z Z.eqb Z.add 0 ex_mul (fun _ => false) argsort exa_args = Ok (inl x) /\
              wf_r x = true /\ shape_r x = [2; 3] /\ den_r x [1; 2] = 18 /\ den_r x [0; 0] = 0 /\
              match x with RGcxs g => g_caxes g = [1] | _ => False end).
 Proof.
   split.
   - constructor; [|constructor; [constructor|constructor]].
     split; [reflexivity|]. exists exa_c. split; [apply canonicalb_spec; reflexivity|].
-    split; [repeat constructor; lia|]. split; [|left; discriminate].
+    split; [repeat constructor; lia|].
     exists exa_c. split.
     + split; [apply canonicalb_spec; reflexivity|]. repeat split; auto.
     + apply ImGcxs. right. reflexivity.
